@@ -152,8 +152,12 @@ func vfPcExec(sc *vfPcScript, mk func(sc *vfPcScript) (vfPcTarget, error)) ([]vf
 		return nil, err
 	}
 	writers := map[uint32]interceptor.RTPWriter{}
-	for _, s := range sc.Streams {
-		s := s
+	gen := map[uint32]int{} // how many next writers the stream has been given so far (guarded by r.mu)
+	bind := func(s uint32) {
+		r.mu.Lock()
+		gen[s]++
+		mine := gen[s]
+		r.mu.Unlock()
 		writers[s] = tg.Bind(s, interceptor.RTPWriterFunc(
 			func(h *rtp.Header, pl []byte, _ interceptor.Attributes) (int, error) {
 				r.mu.Lock()
@@ -174,13 +178,22 @@ func vfPcExec(sc *vfPcScript, mk func(sc *vfPcScript) (vfPcTarget, error)) ([]vf
 				}
 				r.mu.Unlock()
 				// a failing transport: the attempt is a delivery of the packet all the same
-				r.add(vfM{"a": "rel", "s": s, "bits": vfPcBits(h, pl), "pkt": vfPcRec(h, pl), "fail": fail})
+				rel := vfM{"a": "rel", "s": s, "bits": vfPcBits(h, pl), "pkt": vfPcRec(h, pl), "fail": fail}
+				r.mu.Lock()
+				if mine != gen[s] { // handed to a next writer the stream had BEFORE it was bound again
+					rel["stale"] = true
+				}
+				r.mu.Unlock()
+				r.add(rel)
 				if fail {
 					return 0, errVfInjected
 				}
 
 				return h.MarshalSize() + len(pl), nil
 			}))
+	}
+	for _, s := range sc.Streams {
+		bind(s)
 		r.add(vfM{"a": "addstream", "s": s})
 	}
 	var any interceptor.RTPWriter
@@ -230,6 +243,8 @@ func vfPcExec(sc *vfPcScript, mk func(sc *vfPcScript) (vfPcTarget, error)) ([]vf
 				for j := range h.CSRC {
 					h.CSRC[j] = 0x6EEEEEEE
 				}
+			case "rebind": // (only at a quiescent point) the stream is bound again with a NEW next writer
+				bind(st.S)
 			case "setrate":
 				r.add(vfM{"a": "setrate_call", "rate": st.Rate / 1000})
 				tg.SetRate(st.Rate)
